@@ -67,7 +67,7 @@ Lemma fault_reaches_peer_proof : forall p st, reachable p st ->
   (* sender: a walk error / cancelled walk / failed STAT send puts the walker on the error path,
      on which its next stream operation is SendMsg(ERR) *)
   ((forall st', step p st LSWalkErr = Some st' -> err_path_s st') /\
-   (sw_pc st = SW_Next -> s_cancel st = true -> forall st', step p st LSWalk = Some st' -> err_path_s st') /\
+   (sw_pc st = SW_Next -> sw_i st < nentries p -> s_cancel st = true -> forall st', step p st LSWalk = Some st' -> err_path_s st') /\
    (forall k, sw_pc st = SW_Send k -> s_broken st = true -> forall st', step p st LSWalk = Some st' ->
       err_path_s st' \/ k = KErr) /\
    (err_path_s st ->
